@@ -49,7 +49,7 @@ def plan_C15(tier, seed):
                 "combinators once more with a zero-sized value type () and once more with callables that capture 320 bytes by "
                 "value; six shapes of the table are evaluated a second time from a destructor while the thread is unwinding "
                 "from a panic (std::thread::panicking() is true there), and - not under Miri - for the 300th time on the same "
-                "thread (combinators keep no state); six more cells per shape evaluate or_parse and and_then INSIDE a "
+                "thread (combinators keep no state); or_give_up additionally with a constructor that captures nothing (zero-sized closure, invocations counted in a thread-local); six more cells per shape evaluate or_parse and and_then INSIDE a "
                 "continuation of and_then / and_also after a nested continuation failed and the enclosing code recovered; the whole table is instantiated for several shapes of the "
                 "value/error types - fourteen - (4-byte; odd-sized (u32,(u8,u16)); 136-byte and 328-byte arrays, i.e. Parsed larger than 128 "
                 "bytes; String and Box payloads with drop glue; u128 and #[repr(align(64))] payloads, i.e. over-aligned; six more where the types that map / "
